@@ -21,7 +21,7 @@ var externals = map[string]externalFn{}
 
 // packages whose init is not interpreted (globals zero unless engineInit sets them)
 var skipInit = map[string]bool{
-	"runtime": true, "reflect": true, "internal/reflectlite": true, "sync": true, "sync/atomic": true,
+	"errors": true, "os": true, "syscall": true, "golang.org/x/sys/unix": true, "time": true, "runtime": true, "reflect": true, "internal/reflectlite": true, "sync": true, "sync/atomic": true,
 	"internal/cpu": true, "internal/godebug": true, "internal/poll": true, "internal/bytealg": true,
 	"runtime/internal/sys": true, "internal/abi": true, "internal/goarch": true, "unsafe": true,
 	"internal/testlog": true, "internal/syscall/unix": true, "internal/syscall/execenv": true,
@@ -45,6 +45,38 @@ func str(v value) string {
 }
 
 func init() {
+	engineInit["errors"] = func(i *interpreter, pkg *ssa.Package) {
+		if g, ok := pkg.Members["ErrUnsupported"].(*ssa.Global); ok {
+			cell := i.global(g)
+			*cell = call(i, &frame{i: i, th: i.sched.cur}, token.NoPos, pkg.Func("New"), []value{"unsupported operation"})
+		}
+	}
+	engineInit["os"] = func(i *interpreter, pkg *ssa.Package) {
+		fsPkg := i.prog.ImportedPackage("io/fs")
+		for _, n := range []string{"ErrInvalid", "ErrPermission", "ErrExist", "ErrNotExist", "ErrClosed"} {
+			if g, ok := pkg.Members[n].(*ssa.Global); ok && fsPkg != nil {
+				if fg, ok := fsPkg.Members[n].(*ssa.Global); ok {
+					*i.global(g) = *i.global(fg)
+				}
+			}
+		}
+		errPkg := i.prog.ImportedPackage("errors")
+		mk := func(n, msg string) {
+			if g, ok := pkg.Members[n].(*ssa.Global); ok && errPkg != nil {
+				*i.global(g) = call(i, &frame{i: i, th: i.sched.cur}, token.NoPos, errPkg.Func("New"), []value{msg})
+			}
+		}
+		mk("ErrProcessDone", "os: process already finished")
+		mk("ErrNoDeadline", "file type does not support deadline")
+		mk("errPathEscapes", "path escapes from parent")
+	}
+	engineInit["syscall"] = func(i *interpreter, pkg *ssa.Package) {
+		for n, v := range map[string]int{"Stdin": 0, "Stdout": 1, "Stderr": 2} {
+			if g, ok := pkg.Members[n].(*ssa.Global); ok {
+				*i.global(g) = v
+			}
+		}
+	}
 	ext := externals
 	mkSym := func(k types.BasicKind) externalFn {
 		w, _, _ := kindInfo(k)
@@ -280,7 +312,33 @@ func init() {
 		fr.i.ps.events = append(fr.i.ps.events, fmt.Sprintf("os.Exit(%v) by %s", args[0], fr.th.name))
 		panic(exitPanic{int(asInt64(args[0]))})
 	}
+	ext["os.Getpagesize"] = func(fr *frame, args []value) value { return 4096 }
+	ext["syscall.Getpagesize"] = func(fr *frame, args []value) value { return 4096 }
+	ext["golang.org/x/sys/unix.Getpagesize"] = func(fr *frame, args []value) value { return 4096 }
 	ext["os.Getpid"] = func(fr *frame, args []value) value { return 1000 + fr.th.pid }
+
+	// time: a logical clock that advances one second per observation
+	ext["time.Now"] = func(fr *frame, args []value) value {
+		n, _ := fr.i.side["clock"].(int64)
+		n++
+		fr.i.side["clock"] = n
+		return structure{uint64(0), int64(63000000000 + n), (*value)(nil)}
+	}
+	ext["time.Since"] = func(fr *frame, args []value) value {
+		n, _ := fr.i.side["clock"].(int64)
+		n++
+		fr.i.side["clock"] = n
+		t := args[0].(structure)
+		if ext0, ok := t[1].(int64); ok && ext0 != 0 {
+			return (int64(63000000000+n) - ext0) * 1000000000
+		}
+		return int64(n) * 1000000000
+	}
+	ext["time.Sleep"] = func(fr *frame, args []value) value {
+		fr.i.sched.yield(fr.th, "sleep")
+		return nil
+	}
+	ext["time.runtimeNano"] = func(fr *frame, args []value) value { return int64(1) }
 
 	// bytealg
 	ext["internal/bytealg.IndexByte"] = func(fr *frame, args []value) value {
